@@ -119,11 +119,11 @@ Definition distance_bin (n : nat) (A : mat Z) : option (mat (option nat)) :=
 Record bstate := mkb { color : vec nat; bdist : vec (option nat); que : list nat }.
 Definition is0 (a : option nat) : bool := match a with Some O => true | _ => false end.
 
-(* body of `for v in ns` — distance[u] is re-read after the first assignment, as in the code *)
-Definition bvisit (u : nat) (st : bstate) (v : nat) : bstate :=
-  let d1 := if is0 (bdist st v) then vupd (bdist st) v (option_map S (bdist st u)) else bdist st in
+(* body of `for v in ns`; du1 = distance[u] + 1 is read ONCE before the loop (repo commit 4574619) *)
+Definition bvisit (du1 : option nat) (st : bstate) (v : nat) : bstate :=
+  let d1 := if is0 (bdist st v) then vupd (bdist st) v du1 else bdist st in
   if Nat.eqb (color st v) 0
-  then mkb (vupd (color st) v 1%nat) (vupd d1 v (option_map S (d1 u))) (que st ++ [v])
+  then mkb (vupd (color st) v 1%nat) (vupd d1 v du1) (que st ++ [v])
   else mkb (color st) d1 (que st).
 
 Definition nbrs (n : nat) (C : mat Z) (u : nat) : list nat := filter (fun v => znz (C u v)) (seq 0 n).
@@ -135,7 +135,8 @@ Fixpoint breadth_loop (fuel n : nat) (C : mat Z) (st : bstate) : option bstate :
     match que st with
     | [] => Some st
     | u :: _ =>
-      let st1 := fold_left (bvisit u) (nbrs n C u) st in
+      let du1 := option_map S (bdist st u) in
+      let st1 := fold_left (bvisit du1) (nbrs n C u) st in
       breadth_loop f n C (mkb (vupd (color st1) u 2%nat) (bdist st1) (tl (que st1)))
     end
   end.
